@@ -334,6 +334,7 @@ CORE = [
                {"c": {"c": 0.3333, "a": -0.3333, "e": 791400.0}, "k": 1582800.9006999999},
                {"c": {"a": 0.02}, "k": 340.4}],
      "ctx": [{"c": {"e": -0.0101, "a": -250000.0}, "k": 500000.10985999997}]},
+    {"kind": "list", "family": "core", "style": "wide", "terms": [{"c": {"a": -948.8, "c": -1000000.0, "e": -0.0008812}, "k": -2000948.8025435999}, {"c": {"b": -3.0, "e": 1000000.0, "a": 1000000.0}, "k": 3999992.234}, {"c": {"a": -1.234, "e": 1000.0, "d": 250000.0}, "k": -496966.304}], "ctx": [{"c": {"c": -78.9}, "k": 1000.0}, {"c": {"d": 123400.0, "c": -9.999}, "k": -370199.5}, {"c": {"a": 1.234, "c": 0.5, "e": -0.02116}, "k": -3.24432}]},
     {"kind": "list", "family": "core", "style": "int", "terms": [{"c": {}, "k": 0.0}, {"c": {}, "k": 1.0},
                                                                  {"c": {}, "k": 2.5}], "ctx": [{"c": {}, "k": 1.0}]},
     {"kind": "list", "family": "core", "style": "float",
